@@ -314,6 +314,8 @@ def length_form(v, res, lay):
             return bad[0] if bad else ('phi', [k[0] for k in kinds])
         plens = [t for t in terms if isinstance(t, Sym) and t.op == 'plen']
         if len(plens) == len(terms) and len(terms) >= 2:
+            # the order of the summands is immaterial: the parser that starts at 0 first
+            plens = sorted(plens, key=lambda t: 0 if getattr(t.args[0], 'rel', ('?',))[0] in ('root', 'prefix') else 1)
             ps = [t.args[0] for t in plens]
             if all(p in lay.chain for p in ps):
                 first = ps[0]
